@@ -502,6 +502,16 @@ def r16_6(rep, prog):
         has_old = n[0] == 'cassign' or any(sx.kind(x) == 'field' and x[3] == 'frame' for x in sx.walk(val))
         ok = has_begin and has_old
         (rep.holds if ok else rep.violated)('R16.6', inst, '%s:%s' % (f.file, sx.line(n)), 'new frame = `%s`' % sx.show(val)[:60], **({} if ok else {'key': 'renumber'}))
+        # the renumbered frame goes into the slot the extension was just copied to
+        lvf = sx.strip_paren(n[1] if n[0] == 'assign' else n[2])
+        slot = sx.strip(sx.strip(lvf[1])[2]) if sx.kind(sx.strip(lvf[1])) == 'idx' else None
+        copies = [x for x in cf.f.block_exprs(cf.blocks[b_]) for x in sx.walk(x) if x[0] == 'assign' and sx.kind(sx.strip(x[1])) == 'idx' and sx.kind(sx.strip(x[2])) == 'idx'
+                  and sx.key(sx.strip(sx.strip(x[1])[1])) == sx.key(sx.strip(sx.strip(x[2])[1]))]
+        if copies and slot is not None:
+            dst = sx.strip(sx.strip(copies[0][1])[2])
+            okc = sx.key(dst) == sx.key(slot)
+            (rep.holds if okc else rep.violated)('R16.6', '%s:out_range_impl writes the new frame number into the slot it keeps the extension in' % prog.config, '%s:%s' % (f.file, sx.line(n)),
+                                                 'element copied to [%s], frame stored in [%s]' % (sx.show(dst), sx.show(slot)), **({} if okc else {'key': 'renumber-slot'}))
         facts = T.stable_facts(cf, b_, i_)
         cnt_l = [l['id'] for l in f.locals.values() if l['name'] == 'count']
         upper = any(a[0] == '<' and a[2] == ('local', cnt_l[0]) for a in facts) if cnt_l else False
